@@ -147,7 +147,7 @@ def in_coq_corr(ctx, rnd, n):
 def run(ctx):
     rnd = random.Random(ctx.seed)
     ctx.trusted += ["coq/Ndx/Layout.v + GetItem.v re-indexing operators as the semantics of ONNX Transpose/Unsqueeze/Squeeze/Slice/Gather/Reshape/Expand/Concat/Trilu (validated by the in-Coq correspondence on every run)"]
-    ctx.not_discharged += ["closed-form equality with NumPy for reshape/squeeze/broadcast_to: the executable model is compared with the implementation in Coq and the implementation with NumPy; theorems exist for roll (any rank), flip (via slice_1d), concat, stack, permute_dims, take, expand_dims, tril/triu, the broadcasting rule and naturality"]
+    ctx.not_discharged += ["closed-form equality with NumPy for squeeze and the inferred (-1) extent of reshape: the executable model is compared with the implementation in Coq and the implementation with NumPy; theorems exist for roll (any rank), flip (via slice_1d), concat, stack, permute_dims, take, expand_dims, tril/triu, reshape (data and element count preserved), broadcast_to (expand_element + the broadcasting rule) and naturality"]
     ctx.static_build()
     try:
         from translate import gen_src
